@@ -456,6 +456,15 @@ class KindAnalysis:
                 self.pair(c, kk, sk, f"`{norm(c)[:60]}` slices a key against a shape")
             d_ = dom(sk) or dom(kk)
             return ("RANGES", d_) if d_ else None
+        if name == "_MapSpecArgs":
+            # the record that carries kinds from submission to post-processing: check the seed table against its construction
+            cls_q = self.prog.resolve_name(self.fn.module, name, self.fn)
+            ci = self.prog.classes.get(cls_q)
+            if ci is not None:
+                for fname, a in zip(list(ci.fields), args):
+                    if fname in MAPSPECARGS_FIELDS:
+                        self.need(a, self.k(a), MAPSPECARGS_FIELDS[fname], f"_MapSpecArgs field `{fname}`")
+            return None
         # storage constructor: storage_class(path, external_shape, internal_shape, mask)
         if name in ("storage_class",) or (name and name.endswith(("FileArray", "DictArray", "SharedMemoryDictArray"))):
             names = ["folder", "shape", "internal_shape", "shape_mask"]
